@@ -391,7 +391,104 @@ fn gen_inputs(rng: &mut Rng) -> (String, String, String, String, &'static str) {
     let mut frag = BASE_FRAG.to_string();
     let mut config = BASE_CONFIG.to_string();
     let kind;
-    match rng.below(18) {
+    match rng.below(20) {
+        18 => {
+            // a configuration from the space of accepted ones: every mode, each output present or absent (the schema types
+            // can come from schemaModuleSpecifier alone), name/export/type options, YAML or JSON spelling
+            kind = "valid-config-variant";
+            let mut c = crate::genproj::random_config(rng, &["Date".to_string()], true, true);
+            if rng.coin() {
+                c.schema_module_specifier = Some(rng.s(&["@/generated/schema", "./schema-types", "my-schema-package", "../types/schema.js"]).to_string());
+            }
+            if c.schema_module_specifier.is_some() && rng.coin() && !c.emit_schema_runtime {
+                c.schema_output = None;
+            }
+            if rng.chance(1, 8) {
+                c.schema_output = None; // (with no specifier either: the configuration is refused, by a diagnostic)
+            }
+            config = c.render(&["./schema.graphql".to_string()], &["./op.graphql".to_string(), "./frag.graphql".to_string()]);
+        }
+        17 => {
+            // the schema text defines a directive that nitrogql also defines itself (@skip, @include, @deprecated,
+            // @specifiedBy, @nitrogql_ts_type), with the same or with other arguments, types, locations; the documents and
+            // the schema then apply it the way the user's definition asks for (or the built-in way). Code that interprets
+            // these directives by name must not assume the built-in shape.
+            kind = "redefined-built-in-directive";
+            let name = *rng.pick(&["skip", "skip", "include", "include", "deprecated", "specifiedBy", "nitrogql_ts_type"]);
+            let (bi_arg, bi_ty, bi_loc): (&str, &str, &str) = match name {
+                "skip" | "include" => ("if", "Boolean!", "FIELD | FRAGMENT_SPREAD | INLINE_FRAGMENT"),
+                "deprecated" => ("reason", "String", "FIELD_DEFINITION | ENUM_VALUE | ARGUMENT_DEFINITION | INPUT_FIELD_DEFINITION"),
+                "specifiedBy" => ("url", "String!", "SCALAR"),
+                _ => ("type", "String!", "SCALAR"),
+            };
+            // (argument list of the definition, argument text of an application that fits it)
+            let lit_for = |ty: &str, var: bool| -> String {
+                match ty.trim_end_matches('!') {
+                    "Boolean" => if var { "$b".into() } else { "true".into() },
+                    "String" => "\"s\"".into(),
+                    "Int" => if var { "$v".into() } else { "1".into() },
+                    "[Boolean!]" => "[true, false]".into(),
+                    "In" => "{k: 1}".into(),
+                    "E" => "A".into(),
+                    _ => "null".into(),
+                }
+            };
+            let exec = matches!(name, "skip" | "include");
+            let var = exec && rng.coin();
+            let (def_args, app_args): (String, String) = match rng.below(8) {
+                0 => (format!("({bi_arg}: {bi_ty})"), format!("({bi_arg}: {})", lit_for(bi_ty, var))),
+                1 => {
+                    let other = *rng.pick(&["when", "unless", "If", "cond", "_if"]);
+                    (format!("({other}: {bi_ty})"), format!("({other}: {})", lit_for(bi_ty, var)))
+                }
+                2 => {
+                    let ty = *rng.pick(&["String", "Int", "[Boolean!]", "In", "E", "Boolean"]);
+                    (format!("({bi_arg}: {ty})"), format!("({bi_arg}: {})", lit_for(ty, var)))
+                }
+                3 => (String::new(), String::new()),
+                4 => (format!("({bi_arg}: {bi_ty}, extra: Int)"), format!("(extra: 2, {bi_arg}: {})", lit_for(bi_ty, var))),
+                5 => (format!("({bi_arg}: {bi_ty} = {})", lit_for(bi_ty, false)), String::new()),
+                6 => (format!("(extra: Int, {bi_arg}: Boolean)"), "(extra: 1)".to_string()),
+                _ => (format!("({bi_arg}: {bi_ty})"), format!("({bi_arg}: null)")),
+            };
+            let loc = match rng.below(4) {
+                0 => "FIELD",
+                1 => "FIELD | FRAGMENT_SPREAD | INLINE_FRAGMENT | QUERY | FIELD_DEFINITION | ENUM_VALUE | ARGUMENT_DEFINITION | INPUT_FIELD_DEFINITION | SCALAR | OBJECT",
+                _ => bi_loc,
+            };
+            let rep = if rng.chance(1, 5) { " repeatable" } else { "" };
+            let def = format!("directive @{name}{def_args}{rep} on {loc}\n");
+            // where the definition goes: before the rest, after it, or twice
+            schema = match rng.below(4) {
+                0 => format!("{schema}{def}"),
+                1 => format!("{def}{schema}{def}"),
+                _ => format!("{def}{schema}"),
+            };
+            let app = format!("@{name}{app_args}");
+            match name {
+                "skip" | "include" => {
+                    // on a field, a fragment spread, an inline fragment, below a field and at the root
+                    match rng.below(5) {
+                        0 => op = op.replace("  a\n", &format!("  a {app}\n")),
+                        1 => op = op.replace("...F1", &format!("...F1 {app}")),
+                        2 => op = op.replace("... on V {", &format!("... on V {app} {{")),
+                        3 => op = op.replace("t @skip(if: $b)", &format!("t {app}")),
+                        _ => op = op.replace("  i { id }", &format!("  i {app} {{ id {app} }}")),
+                    }
+                    if rng.chance(1, 3) {
+                        // and nothing applies it the built-in way any more
+                        op = op.replace("@skip(if: $b)", "");
+                    }
+                }
+                "deprecated" => match rng.below(4) {
+                    0 => schema = schema.replace("@deprecated(reason: \"no\")", &app),
+                    1 => schema = schema.replace("enum E { A B }", &format!("enum E {{ A B {app} }}")),
+                    2 => schema = schema.replace("b(x: In,", &format!("b(x: In {app},")),
+                    _ => schema = schema.replace("l: [In!]", &format!("l: [In!] {app}")),
+                },
+                _ => schema = schema.replace("scalar Date", &format!("scalar Date {app}")),
+            }
+        }
         16 => {
             // every line indented with ASCII spaces, one line beginning with multi-byte white space instead (legal inside
             // a block string, an illegal character elsewhere): the diagnostics renderer strips the common indentation of
@@ -631,15 +728,57 @@ pub fn scaling_family(name: &str, size: usize) -> (String, String) {
     }
 }
 
-pub const SCALING_FAMILIES: &[&str] = &["fragment-chain-doubly-spread", "list-type-depth", "selection-depth", "input-value-depth", "same-fragment-spread-many-times"];
+pub const SCALING_FAMILIES: &[&str] = &["fragment-chain-doubly-spread", "list-type-depth", "selection-depth", "input-value-depth", "same-fragment-spread-many-times", "import-diamond-layers", "import-chain-with-back-edges"];
+
+/// the operation files of a family (most have one)
+pub fn scaling_family_files(name: &str, size: usize) -> (String, Vec<(String, String)>) {
+    match name {
+        // `size` layers of two fragment files; both files of a layer import from both files of the next layer (a file is
+        // reachable along 2^layer import chains, but there are only 2*size files); every fragment spreads one fragment of
+        // the next layer only, so the fragment graph itself is two plain chains
+        "import-diamond-layers" => {
+            let mut files = vec![("/proj/op.graphql".to_string(), "#import A0 from \"./l0a.graphql\"\n#import B0 from \"./l0b.graphql\"\nquery Layers { b { ...A0 ...B0 } }\n".to_string())];
+            for i in 0..size {
+                for (me, frag) in [("a", "A"), ("b", "B")] {
+                    let text = if i + 1 < size {
+                        let other = if frag == "A" { "B" } else { "A" };
+                        let other_file = if me == "a" { "b" } else { "a" };
+                        format!("#import {frag}{n} from \"./l{n}{me}.graphql\"\n#import {other}{n} from \"./l{n}{other_file}.graphql\"\nfragment {frag}{i} on T {{ id ...{frag}{n} }}\n", n = i + 1)
+                    } else {
+                        format!("fragment {frag}{i} on T {{ id }}\n")
+                    };
+                    files.push((format!("/proj/l{i}{me}.graphql"), text));
+                }
+            }
+            (BASE_SCHEMA.to_string(), files)
+        }
+        // a chain of files, each importing the next one and also the first one (a cycle through every file)
+        "import-chain-with-back-edges" => {
+            let mut files = vec![("/proj/op.graphql".to_string(), "#import C0 from \"./c0.graphql\"\nquery Chain { b { ...C0 } }\n".to_string())];
+            for i in 0..size * 2 {
+                let text = if i + 1 < size * 2 {
+                    let back = if i > 0 { "#import * from \"./c0.graphql\"\n" } else { "" };
+                    format!("#import C{n} from \"./c{n}.graphql\"\n{back}fragment C{i} on T {{ id ...C{n} }}\n", n = i + 1)
+                } else {
+                    format!("#import * from \"./c0.graphql\"\nfragment C{i} on T {{ id }}\n")
+                };
+                files.push((format!("/proj/c{i}.graphql"), text));
+            }
+            (BASE_SCHEMA.to_string(), files)
+        }
+        _ => {
+            let (schema, op) = scaling_family(name, size);
+            (schema, vec![("/proj/op.graphql".to_string(), op)])
+        }
+    }
+}
 
 pub fn check_scaling(family: &str) -> Vec<Violation> {
     let replay = json!({"property":"C08","kind":"scaling","family":family});
     let mut out = vec![];
     let measure = |size: usize, check_only: bool| -> f64 {
-        let (schema, op) = scaling_family(family, size);
+        let (schema, of) = scaling_family_files(family, size);
         let sf = vec![("/proj/schema.graphql".to_string(), schema)];
-        let of = vec![("/proj/op.graphql".to_string(), op)];
         let mut best = f64::MAX;
         for _ in 0..2 {
             let t0 = thread_cpu_ms();
@@ -683,7 +822,7 @@ pub fn run(ctx: &Ctx, rep: &mut Report) {
             rep.sample(json!({"kind": kind, "operation": clip(&op, 400), "schema": clip(&schema, 300)}));
         }
         rep.violations(check_case(&schema, &op, &frag, &config));
-        if case % cli_every == 0 {
+        if case % cli_every == 0 || (kind == "valid-config-variant" && case % 8 == 0) {
             rep.count("cli_runs");
             rep.violations(check_cli(ctx, case, &schema, &op, &frag, &config));
         }
